@@ -19,7 +19,8 @@ import (
 
 type doc struct {
 	format string            // "html", "css", "js", "json", "md"
-	src    string            // main file source
+	src    string            // main file source (= the concatenation of parts)
+	parts  []string          // top-level blocks / statements / rules; shrinking removes whole parts
 	extra  map[string]string // other files (rendered / imported)
 	feats  []string          // generator features, for the histogram
 	risky  string            // "" for the main stream, else the construct family
@@ -111,13 +112,13 @@ func (g *gen) jsStmt() string {
 		return "// note: " + g.word() + " " + g.hole(textVars) + "\nvar d = 1;"
 	case 6:
 		g.feat("js:block-comment")
-		return "/* " + g.word() + " " + g.hole(textVars) + " */ var e = 2;"
+		return "/* " + g.word() + " */ var e = 2; /* " + g.word() + " */"
 	case 7:
 		g.feat("js:if-compare")
 		return "if (a < " + v() + " && b >= 1) { g(" + v() + "); }"
 	case 8:
 		g.feat("js:escaped-quote-in-string")
-		return `var q = "a\"` + g.hole(textVars) + `\\"; var r = 'it\'s ` + g.hole(textVars) + `';`
+		return `var q = "a\"` + g.hole(textVars) + `\"b"; var r = 'it\'s ` + g.hole(textVars) + `';`
 	case 9:
 		g.feat("js:division")
 		return "var h = (a + 1) / 2 / x; var k = " + v() + ";"
@@ -155,7 +156,7 @@ func (g *gen) jsonValue(depth int) string {
 		return g.pick("1", "-2.5e3", "true", "null", `"lit"`)
 	case 3:
 		g.feat("json:string-escaped-quote")
-		return `"a\"` + g.hole(textVars) + `\\"`
+		return `"a\"` + g.hole(textVars) + `\" b"`
 	case 4:
 		g.feat("json:array")
 		return "[" + g.jsonValue(depth+1) + ", " + g.jsonValue(depth+1) + "]"
@@ -189,7 +190,7 @@ func (g *gen) cssRule() string {
 		return `@import "` + g.text(textVars, "x.css", "/c/") + `";`
 	case 6:
 		g.feat("css:escaped-quote-in-string")
-		return `i::before { content: "a\"` + g.hole(textVars) + `\\"; }`
+		return `i::before { content: "a\"` + g.hole(textVars) + `\" b"; }`
 	case 7:
 		g.feat("css:font-family-values")
 		return "p { font-family: " + g.hole(cssValVars) + ", serif; font-size: " + g.hole([]string{"n", "f"}) + "em }"
@@ -222,10 +223,13 @@ func (g *gen) attr() string {
 		return `alt='` + g.text(textVars) + `'`
 	case 2:
 		g.feat("attr:unquoted")
-		return "data-x=" + g.pick("", "a", "1") + h() + g.pick("", "z")
+		if pre, suf := g.pick("", "a", "1"), g.pick("", "z"); pre+suf != "" {
+			return "data-x=" + pre + h() + suf
+		}
+		return "\x01data-x=" + h()
 	case 3:
 		g.feat("attr:unquoted-whole")
-		return "value=" + h()
+		return "\x01value=" + h()
 	case 4:
 		g.feat("attr:url-dq")
 		return `href="` + g.text(textVars, urlLits...) + `"`
@@ -234,7 +238,10 @@ func (g *gen) attr() string {
 		return `src='` + g.text(textVars, urlLits...) + `'`
 	case 6:
 		g.feat("attr:url-unquoted")
-		return "href=" + g.pick("", "/p/", "x?y=") + h()
+		if pre := g.pick("", "/p/", "x?y="); pre != "" {
+			return "href=" + pre + h()
+		}
+		return "\x01href=" + h()
 	case 7:
 		g.feat("attr:url-query")
 		return `href="/s?q=` + h() + `&amp;r=` + h() + `#` + h() + `"`
@@ -282,7 +289,8 @@ func (g *gen) htmlBlock() string {
 	switch g.r.Intn(20) {
 	case 0, 1, 2:
 		g.feat("html:text")
-		return "<" + g.pick("p", "div", "li", "b") + ">" + g.text(textVars) + "</" + g.pick("p", "div", "li", "b") + ">"
+		tag := g.pick("p", "div", "li", "b")
+		return "<" + tag + ">" + g.text(textVars) + "</" + tag + ">"
 	case 3:
 		g.feat("html:rcdata-title")
 		return "<title>" + g.text(textVars) + "</title>"
@@ -292,8 +300,20 @@ func (g *gen) htmlBlock() string {
 	case 5, 6, 7, 8, 9:
 		n := 1 + g.r.Intn(3)
 		var as []string
+		// an unquoted attribute whose whole value is a hole can be empty: it then takes the NEXT
+		// attribute as its value (known finding unquoted-attr-empty-value, risky stream) — in the
+		// main stream at most one such attribute, placed last
+		last := ""
 		for i := 0; i < n; i++ {
-			as = append(as, g.attr())
+			a := g.attr()
+			if strings.HasPrefix(a, "\x01") {
+				last = a[1:]
+			} else {
+				as = append(as, a)
+			}
+		}
+		if last != "" {
+			as = append(as, last)
 		}
 		attrs := strings.Join(as, g.pick(" ", "  ", "\n "))
 		tag := g.tagFor(attrs)
@@ -304,6 +324,9 @@ func (g *gen) htmlBlock() string {
 		case 0:
 			return "<" + tag + " " + attrs + ">"
 		case 1:
+			if last != "" {
+				return "<" + tag + " " + attrs + ">"
+			}
 			return "<" + tag + " " + attrs + " />"
 		default:
 			return "<" + tag + " " + attrs + ">" + g.text(textVars) + "</" + tag + ">"
@@ -338,75 +361,75 @@ func (g *gen) htmlBlock() string {
 func (g *gen) mainDoc() doc {
 	g.feats = nil
 	d := doc{extra: map[string]string{}}
+	n := 1 + g.r.Intn(4)
 	switch g.r.Intn(10) {
 	case 0:
 		d.format = "js"
-		d.src = g.jsCode()
+		for i := 0; i < n; i++ {
+			d.parts = append(d.parts, g.jsStmt()+g.pick("\n", " ", "\n  "))
+		}
 		g.feat("file:js")
 	case 1:
 		d.format = "css"
-		d.src = g.cssCode()
+		for i := 0; i < n; i++ {
+			d.parts = append(d.parts, g.cssRule()+g.pick("\n", " "))
+		}
 		g.feat("file:css")
 	case 2:
 		d.format = "json"
-		d.src = g.jsonValue(0)
+		d.parts = []string{g.jsonValue(0)}
 		g.feat("file:json")
 	case 3:
 		d.format = "md"
-		d.src = g.mdDoc()
+		for i := 0; i < n; i++ {
+			d.parts = append(d.parts, g.mdBlock())
+		}
 		g.feat("file:md")
 	default:
 		d.format = "html"
-		var b strings.Builder
-		n := 1 + g.r.Intn(4)
-		for i := 0; i < n; i++ {
-			b.WriteString(g.htmlBlock())
-			b.WriteString(g.pick("", "\n", " ", " text "))
-		}
-		if g.r.Intn(8) == 0 {
+		macro := g.r.Intn(8) == 0
+		if macro {
 			// macros and rendered files of the same format
 			g.feat("html:macro+render-same-format")
 			d.extra["part.html"] = "<i title=\"{{ s }}\">" + g.text(textVars) + "</i>"
-			b.WriteString(`{{ render "part.html" }}`)
-			src := `{% macro M(x string) %}<b class='{{ x }}'>{{ x }}</b>{% end %}` + b.String() + "{{ M(s) }}"
-			d.src = src
-		} else {
-			d.src = b.String()
+			d.parts = append(d.parts, `{% macro M(x string) %}<b class='{{ x }}'>{{ x }}</b>{% end %}`)
+		}
+		for i := 0; i < n; i++ {
+			d.parts = append(d.parts, g.htmlBlock()+g.pick("", "\n", " ", " text "))
+		}
+		if macro {
+			d.parts = append(d.parts, `{{ render "part.html" }}`, "{{ M(s) }}")
 		}
 	}
+	d.src = strings.Join(d.parts, "")
 	d.feats = g.feats
 	return d
 }
 
-func (g *gen) mdDoc() string {
-	var b strings.Builder
-	n := 1 + g.r.Intn(3)
-	for i := 0; i < n; i++ {
-		switch g.r.Intn(5) {
-		case 0:
-			g.feat("md:paragraph")
-			b.WriteString("Some " + g.hole(mdVars) + " text and " + g.hole(mdVars) + ".\n\n")
-		case 1:
-			g.feat("md:heading")
-			b.WriteString("# Title " + g.hole(mdVars) + "\n\n")
-		case 2:
-			g.feat("md:list")
-			b.WriteString("- item " + g.hole(mdVars) + "\n- two\n\n")
-		case 3:
-			g.feat("md:emphasis")
-			b.WriteString("*em* **strong** " + g.hole(mdVars) + " `code`\n\n")
-		default:
-			g.feat("md:link")
-			b.WriteString("[label](https://ex.org/" + g.hole(mdVars) + ") tail\n\n")
-		}
+func (g *gen) mdBlock() string {
+	switch g.r.Intn(5) {
+	case 0:
+		g.feat("md:paragraph")
+		return "Some " + g.hole(mdVars) + " text and " + g.hole(mdVars) + ".\n\n"
+	case 1:
+		g.feat("md:heading")
+		return "# Title " + g.hole(mdVars) + "\n\n"
+	case 2:
+		g.feat("md:list")
+		return "- item " + g.hole(mdVars) + "\n- two\n\n"
+	case 3:
+		g.feat("md:emphasis")
+		return "*em* **strong** " + g.hole(mdVars) + " `code`\n\n"
+	default:
+		g.feat("md:link")
+		return "[label](https://ex.org/" + g.hole(mdVars) + ") tail\n\n"
 	}
-	return b.String()
 }
 
 // ---- the RISKY stream: one construct family per document
 
 var riskyFamilies = []string{"js-regex", "js-template-literal", "html-comment-markup", "tag-context", "bytes-in-html",
-	"render-other-format", "unquoted-empty", "attr-subcontext"}
+	"render-other-format", "unquoted-empty", "attr-subcontext", "string-escaped-backslash", "js-block-comment"}
 
 func (g *gen) riskyDoc() doc {
 	g.feats = nil
@@ -428,16 +451,28 @@ func (g *gen) riskyDoc() doc {
 	case "tag-context":
 		d.src = "<" + g.pick("div", "input", "a") + " " + g.pick("", `id="i" `) + h() + g.pick("", ` class="c"`) + ">" + g.pick("", "x</div>")
 	case "bytes-in-html":
-		d.src = "<p>" + g.pick("{{ bs }}", "{{ bs }} {{ s }}", "a {{ bs }} b") + "</p>"
+		d.src = "<p>" + g.pick("{{ bs }}", "{{ bs }} {{bs}}", "a {{ bs }} b") + "</p>"
 	case "render-other-format":
 		d.extra["x.txt"] = g.pick("plain {{ s }}", "<b>bold</b>", "{{ s }}")
 		d.src = `<p>{{ render "x.txt" }}</p>`
 	case "unquoted-empty":
 		d.src = "<input value=" + h() + g.pick(" disabled>", " type=text>", ` class="c">`)
+	case "js-block-comment":
+		d.src = "<script>/* " + g.word() + " " + h() + " */ var e = " + v() + ";</script>"
+	case "string-escaped-backslash":
+		switch g.r.Intn(3) {
+		case 0:
+			d.src = `<script>var p = "C:\\"; var x = ` + v() + `; var y = "` + h() + `";</script>`
+		case 1:
+			d.src = `<style>a::before { content: "\\"; } b { color: ` + g.hole(cssValVars) + `; } i::after { content: "` + h() + `" }</style>`
+		default:
+			d.src = `<script type="application/ld+json">{"p": "C:\\", "x": ` + v() + `, "y": "` + h() + `"}</script>`
+		}
 	default: // attr-subcontext: JS / CSS inside event and style attributes (not sub-tokenised in the main stream)
 		d.src = g.pick(`<a onclick="go(`+h()+`)">x</a>`, `<a onclick='f("`+h()+`")'>x</a>`, `<p style="color: `+h()+`">x</p>`,
 			`<p style='background: url("`+h()+`")'>x</p>`)
 	}
+	d.parts = []string{d.src}
 	d.feats = g.feats
 	return d
 }
